@@ -82,3 +82,88 @@ Proof.
   intros c n sc K H p q E. unfold prop_ok1 in H. rewrite K in H.
   pose proof (lim_scan_sound _ _ _ _ _ _ _ H ltac:(lia) p q E). lia.
 Qed.
+
+(* TaskRunner: an accepted log never has more than n tasks inside their body at any prefix. *)
+Lemma tr_scan_step : forall n sc e l live running pending,
+  tr_scan n sc (e :: l) live running pending = true ->
+  exists lv pd, tr_scan n sc l lv (running + wdelta e) pd = true /\ (ek e = 1 -> running < n).
+Proof.
+  intros n sc e l live running pending H. cbn [tr_scan] in H. unfold wdelta.
+  destruct (nth_op sc (ea e) (eop e)) as [[pn|pn|]|];
+  (destruct (Z.eq_dec (ek e) 3) as [K|K3];
+   [rewrite K in *; cbn [Z.eqb Pos.eqb] in * |
+    destruct (Z.eq_dec (ek e) 0) as [K|K0];
+    [rewrite K in *; cbn [Z.eqb Pos.eqb] in * |
+     destruct (Z.eq_dec (ek e) 1) as [K|K1];
+     [rewrite K in *; cbn [Z.eqb Pos.eqb] in * |
+      destruct (Z.eq_dec (ek e) 2) as [K|K2];
+      [rewrite K in *; cbn [Z.eqb Pos.eqb] in * |
+       rewrite (proj2 (Z.eqb_neq _ _) K3), (proj2 (Z.eqb_neq _ _) K0),
+               (proj2 (Z.eqb_neq _ _) K1), (proj2 (Z.eqb_neq _ _) K2) in *; try rewrite Z.eqb_refl in * ]]]]);
+  repeat match type of H with context [if ?b then _ else _] => destruct b eqn:? end;
+  apply andb_prop in H; destruct H as [H Hs];
+  try (replace (running + 0) with running by lia);
+  try (eexists; eexists; split; [exact Hs | intros; try lia]).
+  all: try (apply andb_prop in H; destruct H as [H _]; apply Z.ltb_lt in H; lia).
+Qed.
+
+Lemma tr_scan_sound : forall l n sc live running pending,
+  tr_scan n sc l live running pending = true -> running <= n ->
+  forall p q, l = p ++ q -> running + inside_after p <= n.
+Proof.
+  induction l as [|e l IH]; intros n sc live running pending H Hr p q E.
+  - destruct p; [cbn; lia|discriminate].
+  - destruct p as [|e' p]; [cbn; lia|]. cbn in E. inversion E; subst e' l. clear E.
+    destruct (tr_scan_step _ _ _ _ _ _ _ H) as [lv [pd [Hs H1]]].
+    cbn [inside_after].
+    assert (running + wdelta e <= n).
+    { unfold wdelta. destruct (ek e =? 1) eqn:E1; [apply Z.eqb_eq in E1; specialize (H1 E1); lia|].
+      destruct (ek e =? 2); lia. }
+    specialize (IH _ _ _ _ _ Hs H0 p q eq_refl). lia.
+Qed.
+
+(* Pool: an accepted log never has more than n live resources (created and not destroyed, by the
+   executor's own events in create() / destroy()) at any prefix. *)
+Definition ldelta (e : ev) : Z := if ek e =? 5 then 1 else if ek e =? 6 then -1 else 0.
+Fixpoint live_after (l : list ev) : Z := match l with [] => 0 | e :: l' => ldelta e + live_after l' end.
+
+Lemma pl_scan_sound : forall l n ma sc m,
+  pl_scan n ma sc l m = true -> mlive m <= n ->
+  forall p q, l = p ++ q -> mlive m + live_after p <= n.
+Proof.
+  induction l as [|e l IH]; intros n ma sc m H Hm p q E.
+  - destruct p; [cbn; lia|discriminate].
+  - destruct p as [|e' p]; [cbn; lia|]. cbn in E. inversion E; subst e' l. clear E.
+    cbn [pl_scan] in H. cbn [live_after]. unfold ldelta.
+    destruct (ek e =? 5) eqn:E5.
+    { apply andb_prop in H. destruct H as [H Hs]. apply andb_prop in H. destruct H as [_ Hl].
+      apply Z.leb_le in Hl.
+      specialize (IH _ _ _ _ Hs Hl p q eq_refl). unfold pm_set in *. cbn [mlive] in *. lia. }
+    destruct (ek e =? 6) eqn:E6.
+    { apply andb_prop in H. destruct H as [H Hs]. apply andb_prop in H. destruct H as [_ Hl].
+      apply Z.leb_le in Hl.
+      specialize (IH _ _ _ _ Hs Hl p q eq_refl). unfold pm_set in *. cbn [mlive] in *. lia. }
+    (* every other event leaves mlive as it is *)
+    match type of H with (let '(ok, m') := ?X in _) = true => destruct X as [ok m'] eqn:EX end.
+    apply andb_prop in H. destruct H as [H Hs]. apply andb_prop in H. destruct H as [_ Hl].
+    apply Z.leb_le in Hl.
+    assert (Hsame : mlive m' = mlive m).
+    { repeat match type of EX with
+             | context [if ?b then _ else _] => destruct b
+             | context [match ?x with _ => _ end] => destruct x
+             end; inversion EX; subst; reflexivity. }
+    specialize (IH _ _ _ _ Hs Hl p q eq_refl). lia.
+Qed.
+
+Lemma prop_ok_tr_pl_sound : forall c,
+  prop_ok1 c = true ->
+  match ckind c with
+  | KTR n _ => forall p q, clog c = p ++ q -> inside_after p <= Z.of_nat n
+  | KPL n _ _ => forall p q, clog c = p ++ q -> live_after p <= Z.of_nat n
+  | _ => True
+  end.
+Proof.
+  intros c H. unfold prop_ok1 in H. destruct (ckind c); try exact I.
+  - intros p q E. pose proof (tr_scan_sound _ _ _ _ _ _ H ltac:(lia) p q E). lia.
+  - intros p q E. pose proof (pl_scan_sound _ _ _ _ _ H ltac:(cbn; lia) p q E). cbn [mlive] in H0. lia.
+Qed.
